@@ -74,16 +74,24 @@ theorem seqCalls_rel {a b : List EItem} (r : All2 EItemRel a b) : All2 CallRel (
   exact All2.map (R := EItemRel) (S := CallRel) (f := fun it => ({ v := it.2.aval, ty := it.1 } : Call))
     (g := fun it => ({ v := it.2.aval, ty := it.1 } : Call)) (fun x y h => avalCall_rel h _ _) r
 
+theorem pageSelCallsFrom_rel {a b : List EItem} (r : All2 EItemRel a b) (named : Bool) :
+    All2 CallRel (pageSelCallsFrom named a) (pageSelCallsFrom named b) := by
+  induction r generalizing named with
+  | nil => exact .nil
+  | @cons x y l m h _ ih =>
+    obtain ⟨tx, vx⟩ := x
+    obtain ⟨ty, vy⟩ := y
+    have e : tx = ty := h.1
+    subst e
+    simp only [pageSelCallsFrom]
+    split
+    · exact .cons (avalCall_rel h _ _) (ih _)
+    · split
+      · exact .cons (avalCall_rel h _ _) (ih _)
+      · exact .cons (avalCall_rel h _ _) (ih _)
+
 theorem pageSelCalls_rel {a b : List EItem} (r : All2 EItemRel a b) :
-    All2 CallRel (pageSelCalls a) (pageSelCalls b) := by
-  unfold pageSelCalls
-  refine All2.map (fun x y h => ?_) r
-  obtain ⟨tx, vx⟩ := x
-  obtain ⟨ty, vy⟩ := y
-  have e : tx = ty := h.1
-  subst e
-  simp only
-  split <;> exact avalCall_rel h _ _
+    All2 CallRel (pageSelCalls a) (pageSelCalls b) := pageSelCallsFrom_rel r false
 
 
 theorem stripWs_value_append_runCalls {r : Prefs} (hr : WsPrefs r) (il im : Nat) (cs : List Call) (v : AVal)
